@@ -82,9 +82,9 @@ def helicity_model_cases(objs):
         lines.append('Definition h%d := helicity4_of_signs (%d) %s.' % (k, int(q.sG * q.spsi), signs))
         names.append('h%d' % k)
     lines.append('Eval vm_compute in [%s].' % '; '.join(names))
-    path = os.path.join(COQ, 'gprops', 'K_helicity_cases.v')
+    path = os.path.join(COQ, 'gprops', 'K_helicity_cases_%d.v' % os.getpid())
     open(path, 'w').write('\n'.join(lines) + '\n')
-    p = subprocess.run(['coqc', '-Q', 'theories', 'QSC', '-Q', 'gprops', 'QSCGProps', 'gprops/K_helicity_cases.v'], cwd=COQ, capture_output=True, text=True, timeout=600)
+    p = subprocess.run(['coqc', '-Q', 'theories', 'QSC', '-Q', 'gprops', 'QSCGProps', 'gprops/K_helicity_cases_%d.v' % os.getpid()], cwd=COQ, capture_output=True, text=True, timeout=600)
     m = re.search(r'=\s*\[(.*?)\]\s*:\s*list Z', p.stdout, flags=re.S)
     if p.returncode != 0 or not m:
         return None, (p.stdout + p.stderr)[-400:]
